@@ -243,9 +243,9 @@ def type_is_subtype(tn, target):
         return True
     chain = {
         "bool": ["int"],
-        "numpy.float64": ["float", "numpy.number", "numpy.floating"],
-        "numpy.int64": ["numpy.number", "numpy.integer"],
-        "numpy.float32": ["numpy.number", "numpy.floating"],
+        "numpy.float64": ["float", "numpy.number", "numpy.floating", "numpy.generic", "numpy.inexact"],
+        "numpy.int64": ["numpy.number", "numpy.integer", "numpy.generic"],
+        "numpy.float32": ["numpy.number", "numpy.floating", "numpy.generic", "numpy.inexact"],
         "OrderedDict": ["dict"],
     }
     if tn in chain and target in chain[tn]:
